@@ -28,11 +28,15 @@ Definition k_file : bytes := Eval compute in bs "file"%string.
 Definition k_line : bytes := Eval compute in bs "line"%string.
 Definition k_text : bytes := Eval compute in bs "text"%string.
 
+(* the value of a key-value pair: an unsigned number or a string *)
+Inductive kvval := KInt (n : N) | KStr (s : bytes).
+
 Record frec := { fr_level : nat;                 (* 1 Error .. 5 Trace *)
                  fr_module : option bytes;
                  fr_file : option bytes;
                  fr_line : option N;
                  fr_thread : option bytes;
+                 fr_kv : list (bytes * kvval);   (* key-value pairs in the order of the source *)
                  fr_msg : bytes }.
 
 Definition level_name (l : nat) : bytes :=
@@ -50,6 +54,22 @@ Definition ts_text (secs : Z) (micros : N) (off : Z) : bytes :=
   fmt_year (cy c) ++ [45] ++ pad_dec 2 (cmo c) ++ [45] ++ pad_dec 2 (cd c) ++ [32]
   ++ pad_dec 2 (ch c) ++ [58] ++ pad_dec 2 (cmi c) ++ [58] ++ pad_dec 2 (cs c) ++ [46] ++ pad_left 6 48 (dec micros) ++ [32]
   ++ [if (off <? 0)%Z then 45 else 43] ++ pad_dec 2 (a / 3600) ++ [58] ++ pad_dec 2 ((a mod 3600) / 60).
+
+(* the text formats: "{k=v, k2=v2} " in front of the message, values in Rust's Debug form (ASCII strings: quotes,
+   backslash, \t \r \n \0 escaped, other control characters as \u{..}); nothing at all without pairs *)
+Definition hexd (n : N) : N := if n <? 10 then 48 + n else 87 + n.
+Definition debug_byte (c : N) : bytes :=
+  if c =? 34 then [92; 34] else if c =? 92 then [92; 92] else if c =? 10 then [92; 110] else if c =? 13 then [92; 114]
+  else if c =? 9 then [92; 116] else if c =? 0 then [92; 48]
+  else if (c <? 32) || (c =? 127) then [92; 117; 123] ++ (if c <? 16 then [hexd c] else [hexd (c / 16); hexd (c mod 16)]) ++ [125]
+  else [c].
+Definition debug_str (s : bytes) : bytes := [34] ++ flat_map debug_byte s ++ [34].
+Definition kv_debug (v : kvval) : bytes := match v with KInt n => dec n | KStr s => debug_str s end.
+Definition kv_text (kvs : list (bytes * kvval)) : bytes :=
+  match kvs with
+  | [] => []
+  | _ => [123] ++ join [44; 32] (List.map (fun kv : bytes * kvval => fst kv ++ [61] ++ kv_debug (snd kv)) kvs) ++ [125; 32]
+  end.
 
 Inductive fmt_kind := FDefault | FOpt | FDetailed | FWithThread | FJson.
 
@@ -76,11 +96,27 @@ Definition json_field (k : bytes) (v : bytes) : bytes := json_string k ++ [58] +
 Definition opt_field (k : bytes) (o : option bytes) : list bytes :=
   match o with Some v => [json_field k (json_string v)] | None => [] end.
 
+(* the JSON format collects the pairs in a BTreeMap: sorted by key, a later pair replaces an earlier one with the same key;
+   the object is left out when there are no pairs *)
+Fixpoint kv_insert (k : bytes) (v : kvval) (m : list (bytes * kvval)) : list (bytes * kvval) :=
+  match m with
+  | [] => [(k, v)]
+  | (k', v') :: r => if beq k k' then (k, v) :: r
+                     else if lex_le k k' then (k, v) :: m else (k', v') :: kv_insert k v r
+  end.
+Definition kv_map (kvs : list (bytes * kvval)) : list (bytes * kvval) :=
+  fold_left (fun m kv => kv_insert (fst kv) (snd kv) m) kvs [].
+Definition json_kv_value (v : kvval) : bytes := match v with KInt n => dec n | KStr s => json_string s end.
+Definition json_kv_object (m : list (bytes * kvval)) : bytes :=
+  [123] ++ join [44] (List.map (fun kv : bytes * kvval => json_string (fst kv) ++ [58] ++ json_kv_value (snd kv)) m) ++ [125].
+Definition k_kv : bytes := [107; 118].
+
 Definition json_line (ts : bytes) (r : frec) : bytes :=
   [123] ++ join [44]
      ([json_field k_level (json_string (level_name (fr_level r))); json_field k_timestamp (json_string ts)]
       ++ opt_field k_thread (fr_thread r) ++ opt_field k_module_path (fr_module r) ++ opt_field k_file (fr_file r)
       ++ match fr_line r with Some n => [json_field k_line (dec n)] | None => [] end
+      ++ match kv_map (fr_kv r) with [] => [] | m => [json_field k_kv (json_kv_object m)] end
       ++ [json_field k_text (json_string (fr_msg r))])
   ++ [125].
 
@@ -88,13 +124,13 @@ Definition format_record (k : fmt_kind) (colored : bool) (ts : bytes) (r : frec)
   let l := fr_level r in
   let p s := if colored then paint l s else s in
   match k with
-  | FDefault => p (level_name l) ++ k_sp ++ or_unnamed (fr_module r) ++ k_sp2 ++ p (fr_msg r)
+  | FDefault => p (level_name l) ++ k_sp ++ or_unnamed (fr_module r) ++ k_sp2 ++ kv_text (fr_kv r) ++ p (fr_msg r)
   | FOpt => k_sp3 ++ p ts ++ k_sp2 ++ p (level_name l) ++ k_sp ++ or_unnamed (fr_file r) ++ [58] ++ line_text (fr_line r) ++ k_sp2
-            ++ p (fr_msg r)
+            ++ kv_text (fr_kv r) ++ p (fr_msg r)
   | FDetailed => k_sp3 ++ p ts ++ k_sp2 ++ p (level_name l) ++ k_sp ++ or_unnamed (fr_module r) ++ k_sp2
-                 ++ or_unnamed (fr_file r) ++ [58] ++ line_text (fr_line r) ++ k_sp4 ++ p (fr_msg r)
+                 ++ or_unnamed (fr_file r) ++ [58] ++ line_text (fr_line r) ++ k_sp4 ++ kv_text (fr_kv r) ++ p (fr_msg r)
   | FWithThread => k_sp3 ++ p ts ++ k_t ++ p (or_unnamed (fr_thread r)) ++ k_sp2 ++ p (level_name l) ++ k_sp
-                   ++ or_unnamed (fr_file r) ++ [58] ++ line_text (fr_line r) ++ k_sp2 ++ p (fr_msg r)
+                   ++ or_unnamed (fr_file r) ++ [58] ++ line_text (fr_line r) ++ k_sp2 ++ kv_text (fr_kv r) ++ p (fr_msg r)
   | FJson => json_line ts r
   end.
 
